@@ -1,0 +1,84 @@
+//! C38: public wrappers around the crate-private [`ZoneStore`] (in-memory
+//! packet store, no DHT fallback) so that a harness can run `resolve`,
+//! `insert` and `get_signed_packet` concurrently under the schedule controller.
+//!
+//! Pause points used (single guarded statements in `store.rs`):
+//! `zonestore.resolve.after_check`, `zonestore.resolve.after_get`,
+//! `zonestore.insert.after_upsert`.
+
+use std::sync::Arc;
+
+use hickory_server::proto::rr::{Name, RData, RecordType};
+use iroh_dns::pkarr::SignedPacket;
+
+use crate::{
+    metrics::Metrics,
+    store::{Options, PacketSource, ZoneStore},
+    util::PublicKeyBytes,
+};
+
+/// A [`ZoneStore`] over an in-memory database.
+#[derive(Clone)]
+pub struct Zones(ZoneStore);
+
+impl Zones {
+    /// Must be called inside a tokio runtime (the store spawns its IO threads on it).
+    pub fn in_memory() -> Result<Self, String> {
+        // No eviction: the harness publishes packets with tiny timestamps.  A retention
+        // longer than the time since the epoch makes the cut-off saturate at 0.
+        let options = Options {
+            eviction: std::time::Duration::from_secs(3600 * 24 * 365 * 200),
+            ..Options::default()
+        };
+        ZoneStore::verif_in_memory(options, Arc::new(Metrics::default()))
+            .map(Zones)
+            .map_err(|e| format!("{e:#}"))
+    }
+
+    /// `ZoneStore::resolve` for TXT records of the (zone-relative) `name`;
+    /// returns the TXT strings of the answer, sorted.
+    pub async fn resolve_txt(&self, key: &[u8; 32], name: &str) -> Result<Option<Vec<String>>, String> {
+        // built like the DNS handler builds it (`parse_name_as_pkarr_with_origin`)
+        let name = Name::from_labels(name.split('.').map(|l| l.as_bytes()))
+            .map_err(|e| format!("{e:#}"))?;
+        let key = PublicKeyBytes::new_unchecked(*key);
+        let r = self
+            .0
+            .resolve(&key, &name, RecordType::TXT)
+            .await
+            .map_err(|e| format!("{e:#}"))?;
+        Ok(r.map(|set| {
+            let mut v: Vec<String> = set
+                .records_without_rrsigs()
+                .filter_map(|r| match &r.data {
+                    RData::TXT(t) => Some(
+                        t.txt_data
+                            .iter()
+                            .map(|s| String::from_utf8_lossy(s).to_string())
+                            .collect::<Vec<_>>()
+                            .join(""),
+                    ),
+                    _ => None,
+                })
+                .collect();
+            v.sort();
+            v
+        }))
+    }
+
+    /// `ZoneStore::insert`: whether the packet was an update.
+    pub async fn insert(&self, packet: SignedPacket) -> Result<bool, String> {
+        self.0
+            .insert(packet, PacketSource::PkarrPublish)
+            .await
+            .map_err(|e| format!("{e:#}"))
+    }
+
+    /// `ZoneStore::get_signed_packet`.
+    pub async fn get_signed_packet(&self, key: &[u8; 32]) -> Result<Option<SignedPacket>, String> {
+        self.0
+            .get_signed_packet(&PublicKeyBytes::new_unchecked(*key))
+            .await
+            .map_err(|e| format!("{e:#}"))
+    }
+}
